@@ -170,7 +170,17 @@ func read_external(rdr *tokenReader, placeholderValues *HashMap, ns EnvType) (Ma
 	}
 	args := lst.(List).Val
 	// cursor := lst.(List).Cursor
-	symbol := Symbol{Val: "new-" + args[0].(Symbol).Val}
+	if len(args) == 0 {
+		return nil, errors.New("constructor name expected after '«'")
+	}
+	name, ok := args[0].(Symbol)
+	if !ok {
+		return nil, fmt.Errorf("constructor name must be a symbol (was of type %T)", args[0])
+	}
+	if ns == nil {
+		return nil, errors.New("constructors cannot be read without an environment")
+	}
+	symbol := Symbol{Val: "new-" + name.Val}
 	constructor, err := ns.Get(symbol)
 	if err != nil {
 		return nil, err
